@@ -140,15 +140,18 @@ def run_deductive(pid, plan, repo, tier, seed, replay_dir):
         except Exception as e:  # noqa
             stage3[id(r)] = ("unknown", "relaxation failed: %s" % e)
     still = [r for r in open_rs if stage3[id(r)][0] != "discharged"]
-    if still and len(still) <= int(os.environ.get("PYVC_MAX_RETRIES", "16")):
-        jobs = [("(set-option :smt.random_seed 7)\n" + solve.to_smt2(r["_oblig"].hyps, r["_oblig"].goal), 3 * solve.Z3_TIMEOUT_MS) for r in still]
+    for seed_ in (7, 13):  # z3's quantifier heuristics depend on the seed: two more attempts with 3x the budget
+        still = [r for r in still if stage3[id(r)][0] != "discharged"]
+        if not still or len(still) > int(os.environ.get("PYVC_MAX_RETRIES", "16")):
+            break
+        jobs = [("(set-option :smt.random_seed %d)\n" % seed_ + solve.to_smt2(r["_oblig"].hyps, r["_oblig"].goal), 3 * solve.Z3_TIMEOUT_MS) for r in still]
         try:
             res4 = solve._pmap(solve._retry_work, jobs, True)
         except Exception:  # noqa
             res4 = [("unknown", "z3", 0.0, "")] * len(jobs)
         for r, (st4, be4, dt4, info4) in zip(still, res4):
             if st4 == "discharged":
-                stage3[id(r)] = ("discharged", "retry with seed 7 / 3x budget (%.1fs)" % dt4)
+                stage3[id(r)] = ("discharged", "retry with seed %d / 3x budget (%.1fs)" % (seed_, dt4))
     for o in outs:
         functions.append(dict(function=o["function"], status=o["status"], obligations=len(o["results"]), paths=o["n_paths"],
                               fragment=o.get("fragment"), lifted_asserts=o.get("lifted_asserts"), wall_s=o.get("wall_s"),
